@@ -1,7 +1,16 @@
 //! C29 correspondence + oracle: the real `try_adjust_price_with_max_deviation_factor`
 //! (verif-hooks c29) and, for acceptance, `SmallPrices::from_price` (verif-hooks c24).
 //! `orc adjust|accept <factor> <minV> <minM> <maxV> <maxM> <refFlag> <refV> <refM>`
+//! `orc e2e <ratio> <minV> <minM> <maxV> <maxM> <refFlag> <refV> <refM>` — END TO END, one token of
+//! `set_prices_from_remaining_accounts` with adjustment enabled and `max_deviation_factor = ratio·10^12`:
+//! real `try_adjust_price` (token config with AllowPriceAdjustment) → real `validate_one` (validator
+//! built from a real Store, fresh timestamps: only the deviation clause decides) → `SmallPrices::from_price`.
+use anchor_lang::error::Error as AErr;
+use anchor_lang::prelude::Pubkey;
+use bytemuck::Zeroable;
+use gmsol_store::states::{PriceProviderKind, PriceValidator, Store, TokenConfig};
 use gmsol_store::verif::{c24, c29};
+use gmsol_utils::token_config::{FeedConfig, TokenConfigFlag};
 use gmsol_utils::price::Decimal;
 use gmsol_utils::Price;
 use hcommon::*;
@@ -21,7 +30,57 @@ fn parse(t: &[&str]) -> Option<In> {
     Some(In { factor, price, r })
 }
 
+const RATIO_MULT: u128 = 1_000_000_000_000;
+const NOW: i64 = 1_700_000_000;
+const PROVIDER: PriceProviderKind = PriceProviderKind::Pyth;
+
+fn verr(e: &AErr) -> String {
+    let name = match e { AErr::AnchorError(a) => a.error_name.clone(), AErr::ProgramError(p) => format!("{:?}", p.program_error) };
+    match name.as_str() {
+        "TokenAmountOverflow" => "err Overflow".into(),
+        "MaxPriceAgeExceeded" => "err MaxAge".into(),
+        "MaxPriceTimestampExceeded" => "err Future".into(),
+        "InvalidArgument" => "err Arg".into(),
+        "InvalidPriceFeedPrice" => "err Deviation".into(),
+        "NotFound" => "err NotFound".into(),
+        o => format!("err Other({o})"),
+    }
+}
+
+fn run_e2e(t: &[&str]) -> Option<String> {
+    if t.len() != 10 { return None; }
+    let ratio: u32 = t[2].parse().ok()?; if ratio == 0 { return None; }
+    let mut tt = t.to_vec(); tt[2] = "0";
+    let i = parse(&tt)?;
+    // validator from a real Store, stubbed clock
+    h_store::set_now(NOW);
+    let mut store: Box<Store> = unsafe { Box::from_raw(std::alloc::alloc_zeroed(std::alloc::Layout::new::<Store>()) as *mut Store) };
+    *store.get_amount_mut("oracle_max_age").unwrap() = 60;
+    *store.get_amount_mut("oracle_max_timestamp_range").unwrap() = 60;
+    *store.get_amount_mut("oracle_max_future_timestamp_excess").unwrap() = 10;
+    let mut v = PriceValidator::try_from(&*store).expect("validator");
+    // token config: adjustment allowed, deviation factor configured
+    let mut tc = TokenConfig::zeroed();
+    tc.set_enabled(true);
+    tc.set_expected_provider(PROVIDER);
+    tc.set_flag(TokenConfigFlag::AllowPriceAdjustment, true);
+    let fc = FeedConfig::new(Pubkey::new_from_array([7u8; 32])).with_timestamp_adjustment(0)
+        .with_max_deviation_factor(Some(ratio as u128 * RATIO_MULT)).ok()?;
+    tc.set_feed_config(&PROVIDER, fc).ok()?;
+    let feed_config = tc.get_feed_config(&PROVIDER).ok()?;
+    // parse_from_feed_account tail: `if token_config.is_price_adjustment_allowed() { try_adjust_price(..) }`
+    let (price, adjusted) = if tc.is_price_adjustment_allowed() {
+        match c29::try_adjust_price(feed_config, i.price, i.r) { Ok(x) => x, Err(e) => return Some(verr(&e)) }
+    } else { (i.price, false) };
+    if let Err(e) = c24::validate_one(&mut v, &tc, &PROVIDER, NOW, 1, &price, i.r.as_ref()) { return Some(verr(&e)); }
+    Some(match c24::small_prices_from_price(&price, false, true) {
+        Ok(sp) => format!("ok {} {} {} {}", adjusted as u8, sp.min().value, sp.max().value, sp.min().decimal_multiplier),
+        Err(_) => "err Arg".into(),
+    })
+}
+
 fn run(t: &[&str]) -> Option<String> {
+    if t.len() >= 2 && t[0] == "orc" && t[1] == "e2e" { return run_e2e(t); }
     if t.len() < 2 || t[0] != "orc" { return None; }
     let i = parse(t)?;
     let adj = c29::try_adjust_price_with_max_deviation_factor(&i.factor, &i.price, i.r.as_ref());
@@ -94,7 +153,62 @@ fn oracle(req: &str, resp: &str) -> Result<bool, String> {
     }
 }
 
+/// END-TO-END oracle, from the property text: adjustment enabled ⇒ an ACCEPTED price has
+/// 0 < min ≤ max and lies within reference ± max deviation, whether or not the adjuster changed it.
+/// Reference and deviation are those of the feed price as delivered (explicit reference, or the mid
+/// of the delivered bounds). Allowance: exactly the validator's rounding of the deviation up to the
+/// price's precision step (F-C24b of C24), and only for a price the adjuster left alone; with a zero
+/// floored deviation an accepted price must equal the reference.
+fn oracle_e2e(req: &str, resp: &str) -> Result<bool, String> {
+    let t: Vec<&str> = req.split(' ').collect();
+    let ratio: u128 = t[2].parse().unwrap();
+    let mut tt = t.clone(); tt[2] = "0";
+    let i = parse(&tt).unwrap();
+    if resp == "panic" || resp.starts_with("err Other") { return Err(format!("unexpected {resp}")); }
+    let f: Vec<&str> = resp.split(' ').collect();
+    if f[0] != "ok" { return Ok(false); }
+    let adjusted = f[1] == "1";
+    let (minv, maxv, m): (u32, u32, u8) = (f[2].parse().unwrap(), f[3].parse().unwrap(), f[4].parse().unwrap());
+    if minv == 0 || minv > maxv { return Err("accepted a zero or inverted price".into()); }
+    let (pmin, pmax) = (unit(i.price.min.value, i.price.min.decimal_multiplier), unit(i.price.max.value, i.price.max.decimal_multiplier));
+    let r = match i.r { Some(d) => unit(d.value, d.decimal_multiplier), None => (&pmin + &pmax) / BigUint::from(2u8) };
+    let dev = &r * BigUint::from(ratio * RATIO_MULT) / BigUint::from(UNIT);
+    let step = BigUint::from(10u8).pow(m as u32);
+    let allowed = if adjusted { dev.clone() } else { (&dev + &step - BigUint::from(1u8)) / &step * &step };
+    let (qmin, qmax) = (unit(minv, m), unit(maxv, m));
+    let ad = |x: &BigUint| if x > &r { x - &r } else { &r - x };
+    let worst = ad(&qmin).max(ad(&qmax));
+    if worst > allowed {
+        return Err(format!("adjustment enabled, but accepted price [{qmin},{qmax}] is {worst} away from the reference {r}: allowed deviation {dev} ({}; adjusted={})",
+            if dev == BigUint::from(0u8) { "floored deviation 0: must equal the reference".to_string() } else { format!("rounded to precision {allowed}") }, adjusted as u8));
+    }
+    Ok(true)
+}
+
+fn gen_e2e(r: &mut Rng) -> String {
+    // regions: (a) low unit price / tiny factor so that floor(ref·factor/10^20) = 0 with feed ≠ ref
+    // (18-decimal synthetic tokens: multiplier 0..2, values of a few digits; minimum factor 1e-8);
+    // (b) ordinary prices with the deviation around the precision step; (c) extremes
+    let region = r.below(10);
+    let (m, base, ratio): (u8, u32, u32) = match region {
+        0..=3 => { let m = r.below(3) as u8; let base = match r.below(3) { 0 => r.range(1, 99) as u32, 1 => r.range(100, 9_999) as u32, _ => r.range(10_000, 999_999) as u32 };
+                   (m, base, *r.pick(&[1u32, 1, 2, 10, 100, 1000])) }
+        4..=7 => (r.below(13) as u8, r.range(1000, 50_000_000) as u32, *r.pick(&[1u32, 1000, 100_000, 1_000_000, 5_000_000, 20_000_000])),
+        _ => (r.below(21) as u8, if r.chance(1, 2) { u32::MAX - r.below(1000) as u32 } else { r.num(32) as u32 }, if r.chance(1, 2) { u32::MAX } else { r.num(32) as u32 }.max(1)),
+    };
+    let dev = ((base as u128).saturating_mul(ratio as u128 * RATIO_MULT) / UNIT).min(1_000_000_000) as i64;
+    let off = |r: &mut Rng| -> i64 { match r.below(8) { 0 => 0, 1 => dev, 2 => dev + 1, 3 => -dev - 1, 4 => r.range(1, 3 * dev as u64 + 20) as i64, 5 => -(r.range(1, 3 * dev as u64 + 20) as i64), 6 => 1, _ => -1 } };
+    let c = |x: i64| x.clamp(0, u32::MAX as i64) as u32;
+    let a = c(base as i64 + off(r)); let b = c(base as i64 + off(r));
+    let (mut minv, maxv) = (a.min(b), a.max(b));
+    if r.chance(1, 30) { minv = 0; }
+    let m2 = if r.chance(1, 25) { r.below(21) as u8 } else { m };
+    let (rf, rv, rm) = if r.chance(1, 2) { (1, if r.chance(1, 20) { r.num(32) as u32 } else { base }, if r.chance(1, 15) { r.below(21) as u8 } else { m }) } else { (0, 0, 0) };
+    format!("orc e2e {ratio} {minv} {m} {maxv} {m2} {rf} {rv} {rm}")
+}
+
 fn gen_req(r: &mut Rng) -> String {
+    if r.chance(2, 5) { return gen_e2e(r); }
     let m = r.below(13) as u8;
     let m2 = if r.chance(1, 12) { r.below(21) as u8 } else { m };
     let base: u32 = match r.below(6) { 0 => r.range(1, 50) as u32, 1 => u32::MAX - r.below(1000) as u32, 2 => r.num(32) as u32, _ => r.range(1000, 5_000_000) as u32 };
@@ -122,7 +236,8 @@ fn main() {
         out.stat(&format!("op.{}", req.split(' ').nth(1).unwrap_or("?")));
         out.stat(&format!("resp.{}", resp.split(' ').take(if resp.starts_with("err") { 2 } else { 1 }).collect::<Vec<_>>().join("_")));
         if resp == "bad-op" { out.case(&req, &resp); continue; }
-        let nt = match oracle(&req, &resp) {
+        let is_e2e = req.starts_with("orc e2e ");
+        let nt = match if is_e2e { oracle_e2e(&req, &resp) } else { oracle(&req, &resp) } {
             Ok(nt) => { out.stat("oracle.checked"); nt }
             Err(what) => { out.oracle_fail(&what, &req); false }
         };
